@@ -158,6 +158,10 @@ func fixedScenarios() []scenario {
 		S("fixed/cancel-unsent-while-refused", step{Op: "proxy", Cl: "c1", Mode: "refuse"}, start(1, "c1"), start(2, "c1"),
 			step{Op: "cancel", ID: 1}, step{Op: "waitret", ID: 1}, step{Op: "proxy", Cl: "c1", Mode: "pass"},
 			step{Op: "waitenter", ID: 2}, step{Op: "release", ID: 2, Out: "ok"}, step{Op: "waitret", ID: 2}),
+		S("fixed/cancel-unsent-while-held", step{Op: "proxy", Cl: "c1", Mode: "hold"}, start(1, "c1"), start(2, "c1"),
+			step{Op: "cancel", ID: 1}, step{Op: "waitret", ID: 1}, start(3, "c1"), step{Op: "proxy", Cl: "c1", Mode: "pass"},
+			step{Op: "waitenter", ID: 2}, step{Op: "waitenter", ID: 3}, step{Op: "release", ID: 2, Out: "ok"}, step{Op: "release", ID: 3, Out: "ok"},
+			step{Op: "waitret", ID: 2}, step{Op: "waitret", ID: 3}),
 		S("fixed/failfast-while-reconnecting", step{Op: "proxy", Cl: "c1", Mode: "refuse"}, start(1, "c1"),
 			step{Op: "start", ID: 2, Cl: "c1", FF: true}, step{Op: "waitret", ID: 2}, step{Op: "proxy", Cl: "c1", Mode: "pass"},
 			step{Op: "waitenter", ID: 1}, step{Op: "release", ID: 1, Out: "err"}, step{Op: "waitret", ID: 1}),
